@@ -2,12 +2,12 @@ SPECIFICATION MCLive
 CONSTANTS
   Calls = {"k1", "k2"}
   CCl = {"c1"}
-  SCl = {"s1"}
-  Stateless = FALSE
-  Timeout = TRUE
-  Sse = TRUE
+  SCl = {}
+  Stateless = TRUE
+  Timeout = FALSE
+  Sse = FALSE
   Nested = FALSE
-  Faults = {}
+  Faults = {"cut"}
   DelModes = {}
   Helds = FALSE
   Notifs = FALSE
@@ -15,5 +15,5 @@ CONSTANTS
   AwaitHandlers = TRUE
   StopSseOnClose = TRUE
 VIEW MCView
-PROPERTIES SrvCloseReturns CliCloseReturns SrvWaitReturns CliWaitReturns SrvNoLeftovers CliNoLeftovers
+PROPERTIES SrvCloseReturns CliCloseReturns SrvNoLeftovers
 CHECK_DEADLOCK FALSE
